@@ -124,11 +124,12 @@ def c12(ctx):
         # safety (reported = sent) and liveness (every message sent is eventually reported) under fairness
         run_mc(ctx, "MC_MidiSystem", {"Chans": "{0, 1}", "V7": "{0, 127}", "V14": "{1, 16383}", "Cns14": "{1}",
                                       "TOc": "2", "CAP": "2", "MaxSend": "2", "MaxRt": "1",
-                                      "Orders": '{"msb", "lsb"}'},
+                                      "Orders": '{"msb", "lsb"}', "Emitting": "FALSE", "MaxN": "0"},
                ["L_Reported", "L_Pending"], ["I_E2E_Cc14", "I_E2E_Poll", "I_E2E_Pn"], view=None, workers=14,
                timeout=3000, tag="MC_MidiSystem")
         run_mc(ctx, "MC_MidiSystem", {"Chans": "{0, 1}", "V7": "{0, 127}", "V14": "{1, 16383}", "Cns14": "{1}",
-                                      "TOc": "2", "CAP": "2", "MaxSend": "2", "MaxRt": "1", "Orders": '{"lsb"}'},
+                                      "TOc": "2", "CAP": "2", "MaxSend": "2", "MaxRt": "1", "Orders": '{"lsb"}',
+                                      "Emitting": "FALSE", "MaxN": "0"},
                ["L_Reported"], ["I_E2E_Cc14", "I_E2E_Poll", "I_E2E_Pn"], view=None, workers=14,
                timeout=3000, tag="MC_MidiSystem_lsb")
     pp = edges_poll(ctx, timeouts=(0, 2), impls=("raw",))
@@ -150,6 +151,7 @@ def c12(ctx):
     res, trace = run_script(ctx, rows, "sender-sentences")
     rows = exhaustive_sentences(ctx, 2, ctx.q(3, 4), ctx.q(40000, 400000)) + exhaustive_sentences(ctx, 0, ctx.q(3, 4), ctx.q(20000, 200000))
     run_script(ctx, rows, "bounded-exhaustive-sentences")
+    system_behaviour_battery(ctx)
     run_script(ctx, gen.roundtrip_poll(ctx.rng, ctx.q(4000, 40000)), "encode-wait-poll")
     run_script(ctx, gen.sweep_pn_values(ctx.rng, "poll", step=ctx.q(3, 1), to=ctx.rng.choice([0, 1, 5])), "value-sweep-poll")
     long_run_battery(ctx, ["poll"])
